@@ -325,6 +325,10 @@ func ruleProgressParser(c *Ctx, r *R) {
 				continue
 			}
 			if p := cycleThrough(h, body, cut, nil); p != nil {
+				if inStringLiteralValue(c, fn) && c.eClean("SPEC-string-escape") {
+					r.ok(key+":evaluated", site, "a loop over the function's own copy of the literal, not over parser input; "+subsumedBy("SPEC-string-escape")+" (it ends on every literal of the domain)")
+					continue
+				}
 				r.bad(key+":advance", site, fmt.Sprintf("a path around this loop (%s) makes no call that can advance the input: the parser cannot make progress on it", blockPath(p)))
 				continue
 			}
